@@ -11,6 +11,9 @@ ALL = ASYNC + FFT
 
 def pick_ratio(rng):
     c = rng.random()
+    if c < 0.06:
+        # extreme conversions (the constructors accept any positive ratio); chunk sizes are capped for these in gen_cfg
+        return rng.choice([20.0, 32.0, 50.0, 100.0, 1 / 20, 1 / 50, 1 / 100])
     if c < 0.25:
         return rng.choice([0.5, 1.0, 2.0, 0.25, 4.0, 1.5, 0.75, 8.0, 0.125])
     if c < 0.45:
@@ -55,6 +58,8 @@ def gen_cfg(rng, kinds=ALL, ty=None, probe=True, nch=None, max_chunk=None, sinc_
         chunk = pick_chunk(rng)
         if max_chunk:
             chunk = min(chunk, max_chunk)
+        if ratio > 16 or ratio < 1 / 16:
+            chunk, maxrel = min(chunk, 32), min(maxrel, 2.0)
         line = f"{ty} {kind} {hx(ratio)} {hx(maxrel)} {deg} {chunk} {nch}"
         return Cfg(kind, ty, nch, dict(ratio=ratio, maxrel=maxrel, deg=deg, chunk=chunk), line,
                    ratio=ratio, maxrel=maxrel, chunk=chunk, L=8)
@@ -72,6 +77,8 @@ def gen_cfg(rng, kinds=ALL, ty=None, probe=True, nch=None, max_chunk=None, sinc_
         chunk = pick_chunk(rng)
         if max_chunk:
             chunk = min(chunk, max_chunk)
+        if ratio > 16 or ratio < 1 / 16:
+            chunk, maxrel = min(chunk, 32), min(maxrel, 2.0)
         which = "probe" if probe else rng.choice(["auto", "scalar", "avx", "sse"])
         L = 8 * ((sinc_len + 7) // 8)
         if probe and sinc_lens is None and rng.random() < 0.12:
